@@ -1951,12 +1951,12 @@ func appProperties() []*propertySpec {
 			Explanation: "Static analysis of the whole error path: SH1 proves that the interpreter's error becomes either the returned error or Result.Status of the returned result and that the Ok() methods are Status == 0 / conjunctions over full ranges; RT1 proves that every caller of SpokFile.Run ranges over all results testing Ok() unconditionally, that the not-Ok side ends in an error naming the task and that nil is returned only after exhaustion; RT2 proves error propagation on every module call edge between main and Runner.Run; RT3 proves main reports on the real standard error and calls os.Exit with a non-zero constant on every path from the failure edge; CP8 (shared with C10) proves a digest is only recorded under Ok() of the task's own commands.",
 			NotCovered:  []string{"the exit status computed inside mvdan.cc/sh", "flag combinations rejected by the CLI library before App.Run"},
 			Assumptions: []string{"interp.IsExitStatus decodes exactly the exit-status errors of (*interp.Runner).Run", "msg.Error writes to the process's standard error; os.Exit never returns"},
-			Rules:       []func(*Ctx) *rule{ruleSH1, ruleRT1, ruleRT2, ruleRT3, ruleCP8}},
+			Rules:       []func(*Ctx) *rule{ruleSH1, ruleRT1, ruleRT2, ruleRT3, ruleRT4, ruleCP8}},
 		{ID: "C12", Title: "--clean removes exactly the declared outputs and the cache, never the project",
 			Explanation: "Static analysis of every os.Remove/RemoveAll call site of the module with its interprocedural entry conditions (greatest fixpoint over the call graph of the Options.*/HasTask guards): CL1 classifies every root of the removed path by backward slicing (only output fields, their Vars/Globs indirections and SpokFile.Dir + cache constants are allowed); CL2 proves each output field and the cache directory reach the removal, globs through their expansion; CL3 proves a test relating each removed path to SpokFile.Dir with an erroring side precedes the removal (at the sink or as a validate-all pass that dominates it); CL4 proves the entry conditions Clean == true and HasTask(\"clean\") == false and that the true side runs the task named \"clean\".",
 			NotCovered:  []string{"that the containment predicate itself is correct for every path string", "directories matched by output globs"},
 			Assumptions: []string{"os.RemoveAll removes exactly the named path and what is below it"},
-			Rules:       []func(*Ctx) *rule{ruleCL1, ruleCL2, ruleCL3, ruleCL4}},
+			Rules:       []func(*Ctx) *rule{ruleCL1, ruleCL2, ruleCL3, ruleCL4, ruleCL6}},
 		{ID: "C19", Title: "Spok writes only where the chosen action says it may",
 			Explanation: "Effect analysis: FX1 enumerates every call of a file-mutating primitive (frozen per-function table for os, per-package table for every other external package the module calls; an unlisted callee makes the check undecided) with its interprocedural entry conditions and proves that any site not under Init/Fmt/Clean is rooted in <SpokFile.Dir>/<cache constants>; FX2 proves the single --fmt write targets Options.Spokfile with Tree.String() and is dominated by the success of Parse and file.New; FX3 proves the --init existence guard on the same path and the O_APPEND/no-O_TRUNC flags; FX4 proves listing branches reach no mutation; FX6 that the logger has no file sink; CL1/CL3/CL4 (shared with C12) cover the --clean branch.",
 			NotCovered:  []string{"effects of user commands and exec(...) builtins (excluded by the property)", "writes performed inside third-party packages classed non-mutating (audited by reading, see DESIGN.md appendix B)"},
@@ -1966,6 +1966,6 @@ func appProperties() []*propertySpec {
 			Explanation: "ST1 proves that the only direct standard-output write reachable from App.Run prints Results.JSON() under Options.JSON; ST6 that JSON() marshals the untouched result of SpokFile.Run with the expected field tags; ST2 that --quiet/--json replace App.stream by the Null stream before anything can read it; ST3 that stdout/stderr capture buffers are paired with the right stream and result fields and Result.Cmd is the executed text; ST4 that listings collect map keys, sort them and only then write; ST5 the default dispatch; GR6 (shared with C03) gives one result per task in execution order.",
 			NotCovered:  []string{"encoding/json's rendering", "tabwriter layout", "docstring text (value-level)"},
 			Assumptions: []string{"fmt.Println writes to the process's standard output; io.Discard discards; io.MultiWriter duplicates writes to all its writers"},
-			Rules:       []func(*Ctx) *rule{ruleST1, ruleST2, ruleST3, ruleST4, ruleST5, ruleST6, ruleGR6}},
+			Rules:       []func(*Ctx) *rule{ruleST1, ruleST2, ruleST3, ruleST4, ruleST5, ruleST6, ruleST7, ruleGR6, ruleRT4}},
 	}
 }
